@@ -6,8 +6,13 @@ REPO = os.environ.get("VERIF_REPO", "/repo")
 LEAN = os.path.join(VERIF, "lean")
 BUILD = os.path.join(VERIF, "build")
 RUNNER_DIR = os.path.join(VERIF, "harness", "runner")
-RUNNER_BIN = os.path.join(BUILD, "target-runner", "debug", "runner")
-CLI_BIN = os.path.join(BUILD, "target-cli", "debug", "typeshare")
+# a scratch copy of the repository (VERIF_REPO) gets its own cargo target directories: two packages
+# with the same name but different source paths must never share (and overwrite) one output binary
+_SUFFIX = "" if REPO == "/repo" else "-" + hashlib.sha1(REPO.encode()).hexdigest()[:8]
+TARGET_RUNNER = os.path.join(BUILD, "target-runner" + _SUFFIX)
+TARGET_CLI = os.path.join(BUILD, "target-cli" + _SUFFIX)
+RUNNER_BIN = os.path.join(TARGET_RUNNER, "debug", "runner")
+CLI_BIN = os.path.join(TARGET_CLI, "debug", "typeshare")
 MODEL_BIN = os.path.join(LEAN, ".lake", "build", "bin", "tsmodel")
 ALLOWED_AXIOMS = {"propext", "Classical.choice", "Quot.sound"}
 FORBIDDEN = re.compile(r"\bsorry\b|\badmit\b|^axiom\s|native_decide|bv_decide|implemented_by|\bunsafe\s|maxHeartbeats\s+0", re.M)
@@ -57,8 +62,7 @@ def build_runner():
         src, dst = os.path.join(REPO, "Cargo.lock"), os.path.join(RUNNER_DIR, "Cargo.lock")
         if not os.path.exists(dst) or open(src).read() != open(dst).read():
             shutil.copyfile(src, dst)
-        rc, out = sh(["cargo", "build", "--offline", "--target-dir", os.path.join(BUILD, "target-runner")],
-                     cwd=RUNNER_DIR)
+        rc, out = sh(["cargo", "build", "--offline", "--target-dir", TARGET_RUNNER], cwd=RUNNER_DIR)
         if rc != 0:
             raise InfraError("runner (and /repo core/lib with verif-hooks) does not compile:\n" + out[-4000:])
     finally:
@@ -70,7 +74,7 @@ def build_cli():
     try:
         rc, out = sh(["cargo", "build", "--offline", "--manifest-path", os.path.join(REPO, "Cargo.toml"),
                       "-p", "typeshare-cli", "--features", "go,python,verif-hooks",
-                      "--target-dir", os.path.join(BUILD, "target-cli")], cwd=REPO)
+                      "--target-dir", TARGET_CLI], cwd=REPO)
         if rc != 0:
             raise InfraError("typeshare-cli does not compile with verif-hooks:\n" + out[-4000:])
     finally:
